@@ -27,8 +27,11 @@
 // thread ever blocks for real and every run is deterministic.
 //
 // Fallback: if a granted thread neither parks nor finishes, the scheduler
-// inspects its goroutine state (runtime.Stack); once it is waiting on a
-// mutex, channel, select or condition variable the grant returns Blocked. A
+// inspects the goroutine states (runtime.Stack); once the thread is waiting on a
+// mutex, channel, select or condition variable AND no other goroutine of the
+// process is running, runnable or in a system call (twice in a row), the grant
+// returns Blocked. A thread that only waits for a helper goroutine or for I/O it
+// started is therefore not mistaken for a blocked one. A
 // blocked thread that is woken later by another thread's step runs on to its
 // next Yield point (or its end) by itself; Grant waits for that to settle
 // before it returns, so the next grant again sees a quiescent system. The
@@ -178,7 +181,13 @@ func blockedState(st string) bool {
 	return false
 }
 
-func goroutineState(gid uint64) string {
+// blockedQuiescent reports whether goroutine gid is waiting on synchronisation while no other
+// goroutine of the process (apart from the caller) is running, runnable or inside a system call.
+// The second condition matters: a thread that merely waits for a helper goroutine or for I/O it
+// started itself (e.g. a file-system hook that opens a store) is in a "chan receive"/"semacquire"
+// state for a moment, but then some other goroutine is active; a thread blocked on a lock held by
+// a parked thread leaves the whole process idle.
+func blockedQuiescent(gid uint64) (blocked, quiescent bool) {
 	buf := make([]byte, 1<<16)
 	for {
 		n := runtime.Stack(buf, true)
@@ -188,29 +197,41 @@ func goroutineState(gid uint64) string {
 		}
 		buf = make([]byte, 2*len(buf))
 	}
-	key := []byte("goroutine " + strconv.FormatUint(gid, 10) + " [")
-	i := bytes.Index(buf, key)
-	for i > 0 && buf[i-1] != '\n' {
-		j := bytes.Index(buf[i+1:], key)
-		if j < 0 {
-			return ""
+	self := curGid()
+	target, active := false, false
+	for _, blk := range bytes.Split(buf, []byte("\n\n")) {
+		if !bytes.HasPrefix(blk, []byte("goroutine ")) {
+			continue
 		}
-		i += 1 + j
+		rest := blk[len("goroutine "):]
+		sp := bytes.IndexByte(rest, ' ')
+		if sp < 0 || sp+2 > len(rest) || rest[sp+1] != '[' {
+			continue
+		}
+		id, err := strconv.ParseUint(string(rest[:sp]), 10, 64)
+		if err != nil {
+			continue
+		}
+		st := rest[sp+2:]
+		if j := bytes.IndexAny(st, "],"); j >= 0 {
+			st = st[:j]
+		}
+		state := string(st)
+		switch {
+		case id == gid:
+			target = blockedState(state)
+		case id == self:
+		case state == "running" || state == "runnable" || state == "syscall":
+			active = true
+		}
 	}
-	if i < 0 {
-		return ""
-	}
-	rest := buf[i+len(key):]
-	j := bytes.IndexAny(rest, "],")
-	if j < 0 {
-		return ""
-	}
-	return string(rest[:j])
+	return target, target && !active
 }
 
 // settleOne waits until t is parked, finished or provably blocked.
 func (s *S) settleOne(t *thread) {
 	spins := 0
+	var blockedSince time.Time // the thread has been seen waiting at every sample since then
 	for {
 		s.mu.Lock()
 		if !t.running {
@@ -224,7 +245,23 @@ func (s *S) settleOne(t *thread) {
 			continue
 		}
 		if spins%20 == 0 {
-			if blockedState(goroutineState(t.gid)) {
+			b1, q1 := blockedQuiescent(t.gid)
+			if !b1 {
+				blockedSince = time.Time{}
+			} else if blockedSince.IsZero() {
+				blockedSince = time.Now()
+			}
+			confirmed := false
+			if q1 {
+				time.Sleep(200 * time.Microsecond)
+				_, q2 := blockedQuiescent(t.gid)
+				confirmed = q2
+			}
+			// safety net: some unrelated goroutine never goes idle (e.g. one parked in a system call)
+			if !confirmed && b1 && time.Since(blockedSince) > 500*time.Millisecond {
+				confirmed = true
+			}
+			if confirmed {
 				// confirm: still not moved
 				s.mu.Lock()
 				if t.running {
